@@ -123,15 +123,19 @@ func (s *Server) serve(ctx context.Context, listener net.Listener, handler Modbu
 			log.Printf("modbus server connection error: %v", err)
 		}
 	}
+	l := &onceCloseListener{Listener: listener}
+	defer l.Close()
+
+	// listener must be known to Shutdown and Addr before anyone can learn (from OnServeFunc) that server is up
+	s.mu.Lock()
+	s.listener = l
+	s.mu.Unlock()
+
 	if s.OnServeFunc != nil {
 		// when listener is started with ":0" (random port) this will be helpful knowing where to connect
 		// and if server is listening already
 		s.OnServeFunc(listener.Addr())
 	}
-
-	s.listener = listener
-	l := onceCloseListener{Listener: listener}
-	defer l.Close()
 
 	for {
 		netConn, err := l.Accept()
@@ -295,7 +299,10 @@ func (s *Server) Shutdown(ctx context.Context) error {
 	defer s.mu.Unlock()
 	s.isShutdown.Store(true)
 
-	err := s.listener.Close()
+	var err error
+	if s.listener != nil { // nil when Shutdown is called before server has started to serve
+		err = s.listener.Close()
+	}
 
 	timer := time.NewTimer(50 * time.Millisecond)
 	defer timer.Stop()
